@@ -793,3 +793,217 @@ Theorem standards_history_satisfiable :
   fst (hrun standard_step ex_s0 (kept standard_step ex_s0 stds)) = mknew [0; 2; 1; 4; 10; 11] 2 2 2 (Some (1%Q, 3%Q)).
 Proof. exact standards_history_example. Qed.
 Print Assumptions standards_history_satisfiable.
+
+(* 10. Contracts regenerated from the C text (session 5).  LV.Gen.ContractGen (translate/contracts.py) holds, for
+       every function of the vnacal_new_t settings, vnacal_new_alloc, vnacal_new_solve, vnacal_add_calibration,
+       vnacal_apply(_m), vnacal_set_{f,d}precision, the vnacal_get_* queries and the ci argument of vnacal_property_*,
+       the ORDERED list of its steps with the CONDITION of every refusing test, its category and its return value.
+       LV.Err.New2Base runs such a list (crun: the prologue on an environment; srun: the whole body on a state),
+       LV.Err.New2Model says what the variables stand for. *)
+Require Import String.
+Require Import LV.Err.New2Base LV.Gen.ContractGen LV.Err.New2Model LV.Err.New2Proofs.
+Open Scope string_scope.
+Open Scope Z_scope.
+
+(* facts about the working tree: every translated function finishes testing before it writes; every refusing step
+   has the documented failure value of its function and refuses with errno = EINVAL directly or through one
+   VNAERR_USAGE report; the documented silent queries have no reporting step and all of them were translated *)
+Theorem contracts_as_found :
+  forallb (fun p => checks_first (contract_order (snd p))) gen_contracts = true /\
+  forallb (fun p => contract_classified (snd (fst p)) (snd p)) gen_contracts = true /\
+  forallb (fun p => negb (is_silent_function (fst (fst p))) || contract_silent (snd p)) gen_contracts = true /\
+  forallb (fun f => existsb (fun p => String.eqb (fst (fst p)) f) gen_contracts) silent_functions = true.
+Proof. exact (conj contracts_checks_first_l (conj contracts_classified_l (conj silent_contracts_l silent_functions_translated_l))). Qed.
+Print Assumptions contracts_as_found.
+
+(* fail_classified, exactly one callback, errno inside the callback = errno on return, silent queries - for every
+   translated function, every environment (all argument values, all states), every errno on entry and whatever the
+   calls inside the reporter leave in errno *)
+Theorem contract_refusal_reported_as_documented : forall f fv c e entry clob v r,
+  In (f, fv, c) gen_contracts -> crun e c = CRefused v r ->
+  v = fv /\
+  r_errno (call_trace (CRefused v r) entry clob) = E_INVAL /\
+  List.length (r_log (call_trace (CRefused v r) entry clob)) = callbacks r /\
+  (forall ce, In ce (r_log (call_trace (CRefused v r) entry clob)) -> ce = (USAGE, E_INVAL)) /\
+  (is_silent_function f = true -> r_log (call_trace (CRefused v r) entry clob) = []).
+Proof. exact contract_report_l. Qed.
+Print Assumptions contract_refusal_reported_as_documented.
+
+(* no call of the error function while the prologue passes or leaves through an early successful exit *)
+Theorem contract_success_makes_no_report : forall o entry clob,
+  (o = CPass \/ o = CExitOk) -> call_trace o entry clob = mkr entry [].
+Proof. exact contract_success_silent_l. Qed.
+Print Assumptions contract_success_makes_no_report.
+
+(* the epilogue of _vnaerr_verror as found: on each of its three paths errno on return is new_errno; the error
+   function is called once (not at all without one) and sees that errno - whatever vasprintf, free and the error
+   function itself leave in errno *)
+Theorem reporter_errno_in_callback_is_errno_on_return : forall cat entry clob,
+  run_effects (new_errno cat entry) cat gen_verror_reported clob 0 (mkr entry []) = mkr (new_errno cat entry) [(cat, new_errno cat entry)] /\
+  run_effects (new_errno cat entry) cat gen_verror_format_failed clob 0 (mkr entry []) = mkr (new_errno cat entry) [(cat, new_errno cat entry)] /\
+  run_effects (new_errno cat entry) cat gen_verror_no_error_fn clob 0 (mkr entry []) = mkr (new_errno cat entry) [].
+Proof. intros. exact (conj (verror_reported_l cat entry clob) (conj (verror_format_failed_l cat entry clob) (verror_no_error_fn_l cat entry clob))). Qed.
+Print Assumptions reporter_errno_in_callback_is_errno_on_return.
+
+Theorem model_variant_report_before_errno :
+  exists cat entry clob,
+    r_log (run_effects (new_errno cat entry) cat [EClobber; ECall; EClobber; ESet] clob 0 (mkr entry [])) <>
+    [(cat, new_errno cat entry)].
+Proof. exact model_variant_report_before_errno_l. Qed.
+Print Assumptions model_variant_report_before_errno.
+
+(* refused_unchanged: for EVERY list of steps whose tests precede its writes, every state type, reading of the
+   state, early-exit write and work: a refused run returns the state it was given, and the prologue on the
+   environment of that state decides the refusal *)
+Theorem ordered_contract_refused_unchanged :
+  forall (St : Type) (envf : St -> env) (exitw : St -> St) (work : nat -> St -> St * bool) c k wi s s' v r,
+  checks_first (contract_order c) = true ->
+  srun envf exitw work k wi c s = (s', RRefused v r) -> s' = s.
+Proof. exact srun_refused_unchanged_l. Qed.
+Print Assumptions ordered_contract_refused_unchanged.
+
+Theorem contract_refused_unchanged : forall f fv c, In (f, fv, c) gen_contracts ->
+  forall (St : Type) (envf : St -> env) (exitw : St -> St) (work : nat -> St -> St * bool) s s' v r,
+  srun envf exitw work 0 0 c s = (s', RRefused v r) ->
+  s' = s /\ crun (envf s) c = CRefused v r.
+Proof. exact contract_refused_unchanged_l. Qed.
+Print Assumptions contract_refused_unchanged.
+
+Theorem model_variant_write_before_test :
+  exists s',
+    srun (fun n : Z => lookup [("x", VInt n)]) (fun n => n) (fun _ n => (n + 1, false)) 0 0
+         [SWork; SReport (CCmp OLt (CVar "x") (CInt 5)) USAGE VM1] 0 = (s', RRefused VM1 (Via USAGE)) /\ s' <> 0.
+Proof. exact model_variant_write_before_test_l. Qed.
+Print Assumptions model_variant_write_before_test.
+
+Theorem contract_theorems_satisfiable :
+  In ("vnacal_new_alloc", VNULL, gen_contract_vnacal_new_alloc) gen_contracts /\
+  crun (env_new_alloc HOk 0 2 1 3) gen_contract_vnacal_new_alloc = CRefused VNULL (Via USAGE) /\
+  In ("vnacal_get_fmin", VHUGE, gen_contract_vnacal_get_fmin) gen_contracts /\
+  crun (env_get HOk [Some (mkcal 0 1 1 0)] 0) gen_contract_vnacal_get_fmin = CRefused VHUGE (Direct E_INVAL) /\
+  crun (env_apply HOk [None; Some (mkcal 8 2 1 3)] (mkapp 1 false 2 false false false false 2 2 false (Some (1, 2)) false false))
+       gen_contract_vnacal_apply_common = CPass /\
+  crun (env_apply HOk [None; Some (mkcal 8 2 1 3)] (mkapp 1 false 2 false false false false 2 2 false (Some (2, 2)) false false))
+       gen_contract_vnacal_apply_common = CRefused VM1 (Via USAGE).
+Proof. exact contract_report_satisfiable. Qed.
+Print Assumptions contract_theorems_satisfiable.
+
+(* what the generated conditions decide, function by function (all argument values) *)
+Theorem new_alloc_contract : forall t r c f,
+  crun (env_new_alloc HOk t r c f) gen_contract_vnacal_new_alloc = lift (check_new_alloc t r c f) /\
+  ((exists v rp, crun (env_new_alloc HOk t r c f) gen_contract_vnacal_new_alloc = CRefused v rp) <-> doc_alloc_valid t r c f = false).
+Proof. intros. exact (conj (new_alloc_contract_l t r c f) (new_alloc_contract_iff_doc_l t r c f)). Qed.
+Print Assumptions new_alloc_contract.
+
+Theorem scalar_setter_contracts : forall (x : dval) (n : Z),
+  crun (env_dbl HOk "significance" x) gen_contract_vnacal_new_set_pvalue_limit = lift (check_set_pvalue x) /\
+  crun (env_dbl HOk "tolerance" x) gen_contract_vnacal_new_set_p_tolerance = lift (check_set_tolerance x) /\
+  crun (env_dbl HOk "tolerance" x) gen_contract_vnacal_new_set_et_tolerance = lift (check_set_tolerance x) /\
+  crun (env_int HOk "iterations" n) gen_contract_vnacal_new_set_iteration_limit = lift (check_set_iteration n) /\
+  crun (env_int HOk "unused" 0) gen_contract_vnacal_new_set_z0 = CPass.
+Proof.
+  intros. exact (conj (set_pvalue_contract_l x) (conj (set_p_tolerance_contract_l x) (conj (set_et_tolerance_contract_l x)
+                (conj (set_iteration_contract_l n) set_z0_contract_l)))).
+Qed.
+Print Assumptions scalar_setter_contracts.
+
+Theorem set_frequency_vector_contract : forall s fv rb,
+  crun (env_set_fv HOk s fv rb) gen_contract_vnacal_new_set_frequency_vector = lift (check_set_fv s fv rb).
+Proof. exact set_fv_contract_l. Qed.
+Print Assumptions set_frequency_vector_contract.
+
+Theorem set_m_error_contract : forall s a,
+  mdec_of (crun (env_set_m_error HOk s a) gen_contract_vnacal_new_set_m_error) = set_m_error_decision s a.
+Proof. exact set_m_error_contract_l. Qed.
+Print Assumptions set_m_error_contract.
+
+(* vnacal_new_solve: one argument test; NULL is the only handle test (a wrong magic number is not looked at) *)
+Theorem solve_contract : forall s,
+  crun (env_solve HOk s) gen_contract_vnacal_new_solve = lift (check_solve s None) /\
+  crun (env_solve HBad s) gen_contract_vnacal_new_solve = crun (env_solve HOk s) gen_contract_vnacal_new_solve.
+Proof. intros. exact (conj (solve_contract_l s) (solve_bad_magic_not_tested_l s)). Qed.
+Print Assumptions solve_contract.
+
+Theorem setters_bad_handle : forall h e,
+  h <> HOk ->
+  In e [gen_contract_vnacal_new_set_frequency_vector; gen_contract_vnacal_new_set_z0; gen_contract_vnacal_new_set_m_error;
+        gen_contract_vnacal_new_set_p_tolerance; gen_contract_vnacal_new_set_et_tolerance;
+        gen_contract_vnacal_new_set_iteration_limit; gen_contract_vnacal_new_set_pvalue_limit] ->
+  forall rest, crun (lookup (vnp_vars h ++ rest)) e = CRefused VM1 (Direct E_INVAL).
+Proof. exact setters_bad_handle_l. Qed.
+Print Assumptions setters_bad_handle.
+
+Theorem add_calibration_contract : forall hv hn other solved,
+  (hv = HOk -> crun (env_add_calibration hv hn other solved) gen_contract_vnacal_add_calibration =
+               if add_calibration_valid hn other solved then CPass else CRefused VM1 (Via USAGE)) /\
+  (hv <> HOk -> crun (env_add_calibration hv hn other solved) gen_contract_vnacal_add_calibration = CRefused VM1 (Direct E_INVAL)).
+Proof.
+  intros. split; [intro; subst; apply add_calibration_contract_l|apply add_calibration_bad_vcp_l].
+Qed.
+Print Assumptions add_calibration_contract.
+
+Theorem precision_contract : forall p,
+  crun (env_precision p) gen_contract_vnacal_set_fprecision =
+    (if (1 <=? p) && (p <=? gen_max_precision) then CPass else CRefused VM1 (Via USAGE)) /\
+  crun (env_precision p) gen_contract_vnacal_set_dprecision =
+    (if (1 <=? p) && (p <=? gen_max_precision) then CPass else CRefused VM1 (Via USAGE)).
+Proof. exact precision_contract_l. Qed.
+Print Assumptions precision_contract.
+
+(* the queries over every calibration table and every ci: silent, failure value by return type, refused exactly for
+   a ci that names no calibration (fmin / fmax: or one without frequency points; property calls: ci = -1 is the
+   global root) *)
+Theorem getter_contract : forall c fv needs tb ci,
+  In (c, fv, needs) getter_contracts ->
+  crun (env_get HOk tb ci) c = if get_valid needs tb ci then CPass else CRefused fv (Direct E_INVAL).
+Proof. exact getter_contract_l. Qed.
+Print Assumptions getter_contract.
+
+Theorem property_ci_contract : forall c fv tb ci,
+  In (c, fv) property_contracts ->
+  crun (env_get HOk tb ci) c = if property_ci_valid tb ci then CPass else CRefused fv (Direct E_INVAL).
+Proof. exact property_contract_l. Qed.
+Print Assumptions property_ci_contract.
+
+Theorem query_bad_handle : forall h c fv tb ci,
+  h <> HOk -> (exists n, In (c, fv, n) getter_contracts) \/ In (c, fv) property_contracts ->
+  crun (env_get h tb ci) c = CRefused fv (Direct E_INVAL).
+Proof. exact query_bad_handle_l. Qed.
+Print Assumptions query_bad_handle.
+
+(* vnacal_apply / vnacal_apply_m: refused (one VNAERR_USAGE report, -1) exactly when the arguments are not the ones
+   vnacal_apply(3) admits for the calibration - over every table, ci, dimension and optional pointer *)
+Theorem apply_contract : forall h tb a,
+  (h = HOk -> crun (env_apply h tb a) gen_contract_vnacal_apply_common = if apply_valid tb a then CPass else CRefused VM1 (Via USAGE)) /\
+  (h <> HOk -> crun (env_apply h tb a) gen_contract_vnacal_apply_common = CRefused VM1 (Direct E_INVAL)).
+Proof. intros. split; [intro; subst; apply apply_contract_l|apply apply_bad_handle_l]. Qed.
+Print Assumptions apply_contract.
+
+(* usable_after_failure for the settings of a vnacal_new_t: every call (accepted, refused, failed late) keeps the
+   invariant later calls rely on, over every history; a refused call returns the state and is classified; a refused
+   call can be erased from any history *)
+Theorem new_settings_refused_unchanged_classified : forall s c s' v r,
+  n2_step s c = (s', RRefused v r) -> s' = s /\ v = VM1 /\ (r = Direct E_INVAL \/ r = Via USAGE).
+Proof. intros s c s' v r H. exact (conj (n2_refused_unchanged_l s c s' v r H) (n2_refused_classified_l s c s' v r H)). Qed.
+Print Assumptions new_settings_refused_unchanged_classified.
+
+Theorem new_settings_history_inv : forall ops s, n2_inv s -> n2_inv (n2_hist s ops).
+Proof. exact n2_history_inv_l. Qed.
+Print Assumptions new_settings_history_inv.
+
+Theorem new_settings_refusal_erasable : forall ops1 c ops2 s v r,
+  snd (n2_step (n2_hist s ops1) c) = RRefused v r ->
+  n2_hist s (ops1 ++ c :: ops2) = n2_hist s (ops1 ++ ops2).
+Proof. exact n2_refusal_erasable_l. Qed.
+Print Assumptions new_settings_refusal_erasable.
+
+Theorem new_settings_satisfiable :
+  let s0 := mkn2 (mknsum 0 2 2 3 false false (mknew [] 0 0 0 None)) (Some (1 # 1000000)) (Some (1 # 1000000)) 30 (Some (1 # 1000)) in
+  n2_inv s0 /\
+  snd (n2_step s0 (N2SetPvalue HOk (Some 2%Q))) = RRefused VM1 (Via USAGE) /\
+  snd (n2_step s0 (N2SetMError HOk (mkmerr 1 None (Some [Some 1%Q]) None false false))) = RRefused VM1 (Via USAGE) /\
+  snd (n2_step s0 (N2Solve HNull false)) = RRefused VM1 (Direct E_INVAL) /\
+  v_merror (n2_sum (n2_hist s0 [N2SetFv HOk (Some [Some 1%Q; Some 2%Q; Some 3%Q]) false; N2SetPvalue HOk (Some 2%Q);
+                                N2SetMError HOk (mkmerr 1 None (Some [Some 1%Q]) None false false)])) = true.
+Proof. exact n2_history_satisfiable. Qed.
+Print Assumptions new_settings_satisfiable.
